@@ -418,8 +418,14 @@ impl<'a, 'b> Gen<'a, 'b> {
         self.cx().scopes.push(vec![]);
         let n = self.t.below(3);
         let mut b = self.stmts(n, d);
-        let e = self.expr(ty, d);
-        b.push(es(e));
+        if d >= 2 && self.t.maybe(24) {
+            // the value comes out of a nested block statement in last position (block statements are transparent)
+            let inner = self.value_block(ty, d - 1);
+            b.push(Stmt::Block(inner));
+        } else {
+            let e = self.expr(ty, d);
+            b.push(es(e));
+        }
         self.cx().scopes.pop();
         b
     }
